@@ -142,6 +142,17 @@ fn main() {
             let (a, b): (u64, u64) = (args[2].parse().unwrap(), args[3].parse().unwrap());
             std::process::exit(if e1::miri_smoke(a, b) == 0 { 0 } else { 1 });
         }
+        Some("scenario-at") => {
+            // nvsim scenario-at <engine> <variant> <from> <to>: the generated scenarios of a class, one JSON per line
+            let ctx = ctx_from_env(&args[6..]);
+            let e = engines();
+            let eng = checks::engine_by_name(&e, &args[2]);
+            let (from, to): (u64, u64) = (args[4].parse().unwrap(), args[5].parse().unwrap());
+            for i in from..to {
+                let seed = rng::run_seed(ctx.verif_seed, &format!("{}/{}", args[2], args[3]), i);
+                println!("{}", serde_json::to_string(&eng.generate(seed, &args[3], Tier::Quick)).unwrap());
+            }
+        }
         Some("scenario") => {
             // nvsim scenario <engine> <variant> <run_seed>
             let e = engines();
